@@ -7,7 +7,7 @@ cd "$(dirname "$0")/.."
 mkdir -p build/logs
 for id in $ids; do
     start=$(date +%s)
-    ./check "$id" --tier "$tier" > "build/logs/$id.$tier.out" 2> "build/logs/$id.$tier.err"
+    SYMCHECK_TAG=${SYMCHECK_TAG_OVERRIDE:-} ./check "$id" --tier "$tier" > "build/logs/$id.$tier.out" 2> "build/logs/$id.$tier.err"
     code=$?
     echo "$id $tier exit=$code wall=$(( $(date +%s) - start ))s $(grep -c '^VIOLATION' build/logs/$id.$tier.out) violations $(grep -c '^KNOWN-FINDING' build/logs/$id.$tier.out) known" | tee -a build/logs/summary.$tier.txt
 done
